@@ -276,7 +276,9 @@ func damage(rng *rand.Rand, format string, text []byte) ([]byte, string) {
 	ci := rng.Intn(len(cols))
 	toks := []string{"", "0", "-1", "x", "+", ".", "9223372036854775807", "9223372036854775808", "-9223372036854775809",
 		"99999999999999999999999", "0x10", "1e3", "1_0", " ", "#", "256", "-0", "007",
-		"255,128", "0,0", "1,2,3,4", ",", "1,", ",1", "1,,2", "0,0,0", "300,1,1", "1,2,x"}
+		"255,128", "0,0", "1,2,3,4", ",", "1,", ",1", "1,,2", "0,0,0", "300,1,1", "1,2,x",
+		// bytes that are white space as Latin-1 runes (U+0085, U+00A0) but not for bytes.TrimSpace, and other odd blanks
+		"gene_id\xa0", "g\x85", "\xa0", "a \xa0b", "t\x0bv", "k\x0c", "x \x85;y\xa0"}
 	switch rng.Intn(9) {
 	case 0:
 		return t[:rng.Intn(len(t))], "truncate"
@@ -284,7 +286,7 @@ func damage(rng *rand.Rand, format string, text []byte) ([]byte, string) {
 		t[rng.Intn(len(t))] = byte(rng.Intn(256))
 		return t, "random byte"
 	case 2:
-		t[rng.Intn(len(t))] = "\n\t @+>#;,.-0"[rng.Intn(12)]
+		t[rng.Intn(len(t))] = "\n\t @+>#;,.-0\xa0\x85\x0b\x0c\r"[rng.Intn(17)]
 		return t, "structural byte"
 	case 3:
 		cols[ci] = []byte(toks[rng.Intn(len(toks))])
